@@ -148,6 +148,8 @@ class HeapBalancerSink(LoadBalancerSink):
         self.Idle, 0, None)]
     self._no_members = FailingMessageSink(NoMembersError)
     self._downq = None
+    # Nodes removed from the heap that still have requests outstanding.
+    self._draining = set()
     self._size = 0
     self._open = False
     self._heap_lock = RLock()
@@ -257,6 +259,7 @@ class HeapBalancerSink(LoadBalancerSink):
     if n.index < 0 and n.load > self.Idle:
       pass
     elif n.index < 0 and n.load == self.Idle:
+      self._draining.discard(n)
       n.channel.Close()
     elif n.load == self.Idle and self._size > 1:
       i = n.index
@@ -333,6 +336,8 @@ class HeapBalancerSink(LoadBalancerSink):
     node.index = -1
     if node.load == self.Idle or node.load >= 0:
       node.channel.Close()
+    else:
+      self._draining.add(node)
     return True
 
   def _OnServersChanged(self, endpoint, channel_factory, added):
@@ -377,8 +382,10 @@ class HeapBalancerSink(LoadBalancerSink):
     self._open = False
     # Closing a channel can synchronously complete its outstanding requests,
     # which re-orders the heap; iterate over a snapshot so that every member
-    # is closed exactly once.
-    [n.channel.Close() for n in list(self._heap)]
+    # is closed exactly once.  Members that already left the heap but are
+    # still draining are closed too.
+    draining, self._draining = self._draining, set()
+    [n.channel.Close() for n in list(self._heap) + list(draining)]
 
   @property
   def state(self):
